@@ -244,6 +244,20 @@ int main(void)
 				fdone = eq->st().done;
 				eq_line("ok", retname(n, buf, sizeof(buf)));
 			}
+			else if (!strcmp(op, "del") && drv_nw == 3) {
+				/* remove messages: the one in progress counts as the first */
+				if (drv_parse_nat(drv_w[2], &a) || !a || a > 64) { puts("bad-op"); continue; }
+				size_t z0 = 0, z1 = 0, i, fd = fdone <= eq->len ? fdone : eq->len;
+				for (i = 0; i < fd; i++) if (!q_at(eq, i)) ++z0;
+				ssize_t n = eq->push(a, 0);
+				if (n < 0) { eq_line("refused", drv_errname(n)); continue; }
+				free(pending); pending = 0; plen = 0;
+				if (fdone > eq->st().done) fdone = eq->st().done;
+				fd = fdone <= eq->len ? fdone : eq->len;
+				for (i = 0; i < fd; i++) if (!q_at(eq, i)) ++z1;
+				if (z0 > z1) sent -= z0 - z1;
+				eq_line("ok", retname(n, buf, sizeof(buf)));
+			}
 			else if (!strcmp(op, "grow") && drv_nw == 3) {
 				if (drv_parse_nat(drv_w[2], &a) || a > (1u << 20)) { puts("bad-op"); continue; }
 				size_t old = eq->max;
